@@ -493,6 +493,44 @@ def check_matrix_ops(spec, ctx):
     z = _dyadic(rng, M)
     ctx.close("transpose_dot", ctx.sut(XT.dot, z, what="transpose.dot"), A.T @ z, rtol=8 * (M + 1) * EPS,
               atol=1e-300, scale=np.abs(A.T) @ np.abs(z))
+
+    # history on the one object X: what it denotes must not depend on what the caller did with earlier results
+    # (in-place modification of a returned sparse matrix / product), nor may earlier results change when the object is used again
+    y_keep = np.array(y, dtype=float, copy=True)
+    for step in spec.get("history", []):
+        if step == "asmatrix":
+            A1 = ctx.sut(X.asmatrix, what="asmatrix (again)")
+            ctx.close("asmatrix_again", A1, A, rtol=0, atol=0, what="asmatrix() after earlier uses of the same object")
+            if sp.issparse(A1):
+                A1.data[:] = -7.0            # the caller owns the returned matrix
+        elif step == "asmatrix_fmt":
+            A1 = ctx.sut(X.asmatrix, fmt, what="asmatrix (again)")
+            ctx.close("asmatrix_again", A1, A, rtol=0, atol=0, what="asmatrix(%r) after earlier uses of the same object" % fmt)
+            if sp.issparse(A1):
+                A1.data *= 0.5
+        elif step == "dot":
+            y2 = ctx.sut(X.dot, x, what="dot (again)")
+            ctx.close("dot_again", y2, A @ xr, rtol=8 * (N + 1) * EPS, atol=1e-300, scale=np.abs(A) @ np.abs(xr),
+                      what="dot after earlier uses of the same object")
+            y2 = np.asarray(y2)
+            if y2.flags.writeable:
+                y2[...] = 3.0
+        elif step == "cdot":
+            xc = xr * (1 + 2j)
+            y2 = ctx.sut(X.dot, xc, what="dot[complex]")
+            ctx.close("dot_complex_re", np.real(y2), A @ xr, rtol=8 * (N + 1) * EPS, atol=1e-300, scale=np.abs(A) @ np.abs(xr))
+            ctx.close("dot_complex_im", np.imag(y2), 2 * (A @ xr), rtol=16 * (N + 1) * EPS, atol=1e-300,
+                      scale=2 * np.abs(A) @ np.abs(xr))
+        elif step == "setdata":
+            D2 = D * 2.0 - 1.0
+            A = rm.dense_matrix(levels, D2)
+
+            def setdata2():
+                X.data = _layout_variant(D2, spec["data"]["order"])
+            ctx.sut(setdata2, what="data setter (again)")
+        ctx.flag("history_" + step)
+    if spec.get("history"):
+        ctx.close("earlier_result_unchanged", y, y_keep, rtol=0, atol=0, what="first product after later uses of the object")
     ctx.nontrivial = nt
 
 
@@ -512,7 +550,9 @@ def strat_matrix_ops(draw):
             "format": draw(st.sampled_from(["csr", "csc", "coo"])),
             "x": {"kind": draw(st.sampled_from(VECTOR_KINDS)), "seed": draw(st.integers(0, 2 ** 31 - 1))},
             "axes": list(draw(st.permutations(list(range(L))))),
-            "dot_reordered": draw(st.booleans())}
+            "dot_reordered": draw(st.booleans()),
+            "history": draw(st.lists(st.sampled_from(["asmatrix", "asmatrix", "asmatrix_fmt", "dot", "cdot", "setdata"]),
+                                     min_size=0, max_size=5))}
 
 
 # ---------------------------------------------------------------------------------------------
